@@ -314,6 +314,60 @@ func genC13(o *hx.Out, tier string) {
 		}
 		o.Add("stall then read failure", verdict, "expect", "ok", fmt.Sprintf("stall-then-fail k=%d", kth))
 	}
+	// ---- stream requests enabled: an ArduPilot heartbeat arrives on a channel whose transport is stalled
+	// and whose backlog is full; the requests for it are discarded like any other item for that channel,
+	// the node goes on serving the other channel ----
+	{
+		cd := shipped("common")
+		cdrw := &dialect.ReadWriter{Dialect: cd}
+		cdrw.Initialize() //nolint:errcheck
+		pipes := []*scn.Pipe{scn.NewPipe("stalled"), scn.NewPipe("healthy")}
+		node := newNode(pipes, func(c *gomavlib.NodeConf) { c.Dialect = cd; c.StreamRequestEnable = true })
+		col := scn.NewCollector(node, 0, false)
+		verdict := "ok"
+		var chs []*gomavlib.Channel
+		col.Wait(func() bool { chs = col.Channels(); return len(chs) == 2 })
+		if len(chs) != 2 {
+			verdict = "CHANNELS-NOT-OPEN"
+		} else {
+			pipes[0].BlockWrites()
+			var hbm message.Message
+			for _, m := range cd.Messages {
+				if m.GetID() == 0 {
+					hbm = hx.RandMessage(r, m, 0)
+				}
+			}
+			for i := 0; i < 80; i++ { // more than the queue holds, to every channel
+				node.WriteMessageAll(hbm) //nolint:errcheck
+			}
+			time.Sleep(100 * time.Millisecond)
+			reflect.ValueOf(hbm).Elem().FieldByName("Autopilot").SetUint(3)
+			mrw := cdrw.GetMessage(0)
+			f := &frame.V2Frame{SystemID: 1, ComponentID: 1, Message: mrw.Write(hbm, true)}
+			f.Checksum = f.GenerateChecksum(mrw.CRCExtra())
+			pipes[0].Feed(frameBytes(cdrw, f)) // heard on the stalled channel
+			time.Sleep(100 * time.Millisecond)
+			before := len(pipes[1].Writes())
+			done := make(chan struct{})
+			go func() {
+				for i := 0; i < 20; i++ {
+					node.WriteMessageAll(hbm) //nolint:errcheck
+				}
+				close(done)
+			}()
+			select {
+			case <-done:
+				if !pipes[1].WaitWrites(func(ws [][]byte) bool { return len(ws) >= before+20 }) {
+					verdict = fmt.Sprintf("HEALTHY-CHANNEL-STARVED %d of 20 later writes", len(pipes[1].Writes())-before)
+				}
+			case <-time.After(3 * time.Second):
+				verdict = "NODE-STALLED WriteMessageAll does not return"
+			}
+			pipes[0].UnblockWrites()
+		}
+		scn.CloseWithin(node, 10*time.Second)
+		o.Add("stream requests for a stalled channel with a full backlog", verdict, "expect", "ok", "sr-on-stalled-channel")
+	}
 	// ---- a TCP peer stops reading for longer than the write time-out while the node has more to
 	// send than the socket buffers hold (writes are cut by the deadline, some in the middle of a
 	// frame), then reads again: the channel is closed and reported, or later writes arrive ----
